@@ -49,6 +49,15 @@ M = [
     ("der-read_length-off-by-one", DER, "if llen > len(string) - 1:", "if llen >= len(string) - 1:", 0, ["C19"], ["C19"]),
     ("lightswitch-==0", RW, "if self.__counter == 1:", "if self.__counter == 0:", 0, ["C20"], ["C20"]),
     ("writer-skips-no_writers", RW, "        self.__write_switch.acquire(self.__no_readers)\n        self.__no_writers.acquire()", "        self.__write_switch.acquire(self.__no_readers)", 0, ["C20"], ["C20"]),
+    # behaviour-preserving edits (refactorings): no check may report a violation
+    ("twin-rename-loop-local-next_blob_adr", BF3, "next_blob_adr", "next_adr", "all", "quiet", ["C03", "C01"]),
+    ("twin-rename-tlv_value", BEC2, "tlv_value", "value_bytes", "all", "quiet", ["C07", "C14", "C02"]),
+    ("twin-crc-shift-as-multiplication", BEC2, "byte ^= (byte << 4) & 0xFF", "byte ^= (byte * 16) % 256", 0, "quiet", ["C15", "C08"]),
+    ("twin-split-tuple-assignment", BF3, "            tlv_blocks.append(preface + data)\n            last_preface, last_postface = preface, postface",
+     "            tlv_blocks.append(preface + data)\n            last_preface = preface\n            last_postface = postface", 0, "quiet", ["C10"]),
+    ("twin-counter-loop-reversed", AES, "for i in xrange(len(self._counter) - 1, -1, -1):", "for i in reversed(xrange(len(self._counter))):", 0, "quiet", ["C16"]),
+    ("twin-pad-with-bytes-literal", "bec2format/crypto.py", "return data + bytes([0x00] * pad_length)", "return data + b\"\\x00\" * pad_length", 0, "quiet", ["C06", "C03"]),
+    ("twin-get_config_ndx-while-loop", BF3, None, None, 0, "quiet", ["C11"]),
     ("rwlock-twin-release-order", RW, "        self.__no_readers.release()\n        self.__readers_queue.release()", "        self.__readers_queue.release()\n        self.__no_readers.release()", 0, "quiet", ["C20"]),
 ]
 
@@ -69,6 +78,20 @@ def apply(name, path, old, new, occ):
         a = "auth_block.pack(self.session_key, ext_encryptors)"
         assert a in s, "pack call site moved"
         s = s.replace(a, "auth_block.pack(random_bytes(16) if auth_block.TAG == 2 else self.session_key, ext_encryptors)", 1)
+    elif name == "twin-get_config_ndx-while-loop":
+        a = """        for ndx, comp in enumerate(self.components):
+            if comp.description.get(BF3TAG.TYPE) == bytes([BF3TYPE.CONFIGURATION]):
+                return ndx
+        else:
+            raise KeyError("Bf3 Package does not contain configuration")"""
+        b = """        ndx = 0
+        while ndx < len(self.components):
+            if self.components[ndx].description.get(BF3TAG.TYPE) == bytes([BF3TYPE.CONFIGURATION]):
+                return ndx
+            ndx += 1
+        raise KeyError("Bf3 Package does not contain configuration")"""
+        assert a in s, "_get_config_ndx changed"
+        s = s.replace(a, b)
     elif name == "aes-table-entry":
         import re
         m = re.search(r"T3 = \[ 0x([0-9a-f]{8}),", s)
